@@ -70,6 +70,37 @@ NextTxnCore ==
     \/ ~txn.open /\ (TxnBegin \/ (\E s \in SubIds : Poll(s, 0) \/ Poll(s, 1)))
 SpecTxnCore == PInit /\ [][NextTxnCore]_vars
 
+(* long vectors (imbl's Vector changes its representation at 64 items; a library change may be size-dependent): *)
+(* random walks from long initial contents with appends of 40 / 70 items, every mutator at every index          *)
+(* every mutator at a few representative indices (walks over long vectors: keeps the branching small) *)
+IdxSome(n) == {0, 1, n \div 2, n - 2, n - 1, n, 63, 64, 65} \cap 0..n
+MutSome(w) ==
+    \/ PushBack(w, fresh) \/ PushFront(w, fresh) \/ PopBack(w) \/ PopFront(w) \/ Clear(w)
+    \/ \E i \in IdxSome(Len(Cur(w))) : \/ Insert(w, i, fresh) \/ Truncate(w, i)
+    \/ \E i \in IdxSome(Len(Cur(w)) - 1) : SetAt(w, i, fresh, "Set") \/ RemoveIdx(w, i, "Remove")
+    \/ \E k \in {0, 1, 40, 70} : AppendK(w, k)
+NextBig == MutSome("v") \/ MutSome("t") \/ TxnNext \/ SubNextFull
+SpecBig == PInit /\ [][NextBig]_vars
+
+(* long transactions (a change may treat long batches differently): a queue-like body of pushes and pops at both ends,   *)
+(* committed only once at least LongTxn diffs are recorded, then polled                                                   *)
+LongTxn == 17
+NextTxnLong ==
+    \/ txn.open /\ (PushBack("t", fresh) \/ PopFront("t") \/ PushFront("t", fresh) \/ PopBack("t") \/ SetAt("t", 0, fresh, "Set"))
+    \/ txn.open /\ Len(txn.batch) >= LongTxn /\ TxnCommit
+    \/ ~txn.open /\ (TxnBegin \/ (\E s \in SubIds : Poll(s, 0)))
+SpecTxnLong == PInit /\ [][NextTxnLong]_vars
+
+(* long backlogs: nobody polls for the first BacklogLen operations (single updates and small transactions), then everybody does *)
+BacklogLen == 45
+NextBacklog ==
+    IF Len(hist) <= BacklogLen
+    THEN \/ txn.open /\ (PushBack("t", fresh) \/ PopFront("t") \/ TxnCommit)
+         \/ ~txn.open /\ (PushBack("v", fresh) \/ PopFront("v") \/ SetAt("v", 0, fresh, "Set") \/ TxnBegin)
+    ELSE \/ txn.open /\ TxnCommit
+         \/ ~txn.open /\ ((\E s \in SubIds : Poll(s, 0) \/ Poll(s, 1)) \/ DropVector)
+SpecBacklog == PInit /\ [][NextBacklog]_vars
+
 (* end of stream: what is still unread when the vector is dropped (single updates, a commit of several diffs), *)
 (* polled completely or one item at a time                                                                     *)
 NextEnd ==
